@@ -489,6 +489,12 @@ def section_illposed():
                     fail("illposed", "accepted well-posed numeric input produced a non-finite element", fmt=fmt, order=o)
 
 
+def section_nh_finding():
+    """Witness of known finding F-NH: non-Hermitian mode with a kept block carrying different unperturbed energies."""
+    pb = Problem([0.0, 1.0, 2.5, 4.0], [0, 0, 1, 1], hermitian=False, seed=0)
+    check_problem("nh_finding", pb, 2, label="F-NH witness: H0=diag(0,1,2.5,4), two blocks, hermitian=False")
+
+
 for name in sections:
     fn = globals().get("section_" + name)
     if fn is None:
